@@ -110,7 +110,7 @@ def _loose_eq(a, b):
 DEFAULT_KNOBS = {
     'n_pipes': (1, 4),
     'classes_per_pipe': (1, 3),
-    'kinds': list(V.JSON_KINDS) + ['ndarray', 'frame', 'series', 'gen', 'dir', 'mem', 'listnp', 'genlazy', 'cont'],
+    'kinds': list(V.JSON_KINDS) + ['ndarray', 'frame', 'series', 'gen', 'dir', 'mem', 'listnp', 'genlazy', 'cont', 'memobj'],
     'max_params': 3,
     'n_roots': (1, 3),
     'p_ns_slot': 0.6,
